@@ -31,6 +31,12 @@ func genC14() *rapid.Generator[ProgCase] {
 		// start with a table so that data steps have a target most of the time
 		first := bt.Op{K: "CreateTable", Table: ctx.Tables[0], Fams: []bt.FamDef{{Name: "f"}, {Name: "g"}}}
 		c.Steps = append([]bt.Op{first}, rapid.SliceOfN(bt.GenOp(ctx), 4, 50).Draw(t, "steps")...)
+		if rapid.IntRange(0, 3).Draw(t, "scenario") == 0 {
+			// splice the drop / re-create scenario in at a drawn position
+			sc := bt.GenDropRecreate(ctx.Tables[0], "", c14Keys).Draw(t, "droprecreate")
+			at := rapid.IntRange(1, len(c.Steps)).Draw(t, "at")
+			c.Steps = append(append(append([]bt.Op{}, c.Steps[:at]...), sc...), c.Steps[at:]...)
+		}
 		return c
 	})
 }
